@@ -42,7 +42,9 @@ RULE = ("histories of 2..4 writers (XML / protobuf; precisions 1..12 incl. the d
         "assigns precision.decimals, setters (author, affiliation, source, tags, location, root_node) on any live writer, "
         "in-place edits of the scenario / planning-problem set (6 kinds), read-only queries of the scenario (7 kinds) and of the "
         "writer (root_node, check_validity_of_commonroad_file); write options check_validity=True, keyword arguments; failing "
-        "calls: a name in a directory that does not exist, input() raising EOFError — followed by further calls; "
+        "calls: a name in a directory that does not exist, input() raising EOFError — followed by further calls; 40% of the "
+        "histories end with: a writer writes a path, another writer rewrites it with other content, the first writer is called "
+        "for it again with SKIP / ASK answered n / ALWAYS; "
         "distinct = canonical JSON of the history; non-trivial = a history with >= 2 performed writes")
 ASSUMPTIONS = ["setters and in-place edits between two writes are outside the property's quantifier (constructions and write calls) and "
                "outside the model's operations; the oracle judges them with the reading 'content is a function of the arguments as they "
@@ -81,7 +83,8 @@ REQUIRED_BUCKETS = ["fmt/xml", "fmt/pb", "kind/full", "kind/scenario", "same-wri
                     "value/empty-tags", "value/large-magnitude", "ctor/some-arguments-explicit", "ctor/numpy-precision",
                     "ctor/default-file-format", "write/check-validity", "write/keyword-arguments", "ask/input-raises",
                     "write/no-such-directory", "write-after-failed-call", "setglobal-then-write", "set-then-write",
-                    "edit-then-write", "query-then-write", "queryw-then-write"]
+                    "edit-then-write", "query-then-write", "queryw-then-write",
+                    "own-path-rewritten-by-other/skip", "own-path-rewritten-by-other/ask", "own-path-rewritten-by-other/always"]
 WORKERS = {"quick": 1, "thorough": 8}
 
 # Every constructor parameter, method parameter, public member, instance attribute and module global of the writer classes
@@ -1075,6 +1078,20 @@ def classify(ctx, case, meta, events):
                         ctx.tag("other-precision-between")
                     if o["fmt"] != m["fmt"]:
                         ctx.tag("other-format-between")
+    # a writer called for a path it wrote itself earlier and somebody else rewrote since
+    mine, last = {}, {}
+    for e in events:
+        if e[0] != "write":
+            continue
+        ev = e[2]
+        target = ev.get("path") if ev.get("content") is not None else (ev["file"] if ev["file"] not in (None, "") else None)
+        if target is None:
+            continue
+        if target in mine.get(ev["label"], set()) and last.get(target) not in (None, ev["label"]):
+            ctx.tag(f"own-path-rewritten-by-other/{ev['mode']}")
+        if ev.get("content") is not None:
+            mine.setdefault(ev["label"], set()).add(target)
+            last[target] = ev["label"]
     # existing-target buckets are tagged by the generator-independent replay of names below
     names = set(p for p, _ in case["pre"])
     for e in events:
@@ -1161,6 +1178,18 @@ def gen_case(ctx):
         ops.append(["write", label, kind, file, mode, answer, None if r.random() < 0.1 else r.choice(DATES),
                     {"cv": r.random() < 0.08, "kw": r.random() < 0.3}])
         writes_left -= 1
+    # a path this writer wrote itself, rewritten by another writer, then this writer again with SKIP / ASK-no / ALWAYS
+    if len(alive) >= 2 and r.random() < 0.4:
+        a = r.choice(alive)
+        b = r.choice([x for x in alive if x != a])
+        sig = {o[1]: (o[2], o[3], o[4], json.dumps(o[6], sort_keys=True)) for o in ops if o[0] == "new"}
+        path = r.choice(POOL)
+        ka = r.choice(["full", "full", "scenario"])
+        kb = ka if sig[a] != sig[b] else ("scenario" if ka == "full" else "full")      # B's file differs from A's
+        mode, answer = r.choice([("skip", None), ("skip", None), ("ask", "n"), ("always", None)])
+        ops.append(["write", a, ka, path, "always", None, r.choice(DATES), {"cv": False, "kw": r.random() < 0.3}])
+        ops.append(["write", b, kb, path, "always", None, r.choice(DATES), {"cv": False, "kw": False}])
+        ops.append(["write", a, ka, path, mode, answer, r.choice(DATES), {"cv": False, "kw": r.random() < 0.3}])
     pre = []
     for k in range(r.choice([0, 0, 1, 2])):
         p = r.choice(POOL + [inputs[0]["name"] + ".xml", inputs[0]["name"]])
@@ -1170,11 +1199,18 @@ def gen_case(ctx):
 
 
 def run(ctx):
-    check_dimensions()
+    from common import InfraError
+    problem = None
+    try:
+        check_dimensions()
+    except InfraError as e:          # code growth the table does not know: the histories run first — a concrete failure takes precedence
+        problem = e
     for p in sorted(glob.glob(os.path.join(CORPUS_DIR, "C15", "*.json"))):
         run_case(ctx, json.load(open(p)))
     for _ in range(ctx.n(300)):
         run_case(ctx, gen_case(ctx))
+    if problem is not None and not ctx.failures:
+        raise problem                # never a silent pass
 
 
 search = run
